@@ -48,7 +48,23 @@ def gen_call(ctx: Ctx, M):
     retain = True if (M.nested_features() or M.multi_output_features()) else rng.random() < 0.3
     pre = rand_pre(rng, P, P.leaves())
     gen = rng.random() < 0.2
-    return dict(gen=gen, losses=M.losses, features=M.features, tasks=tasks, m_tasks=m_tasks, shared=shared,
+    losses = list(M.losses)
+    if rng.random() < 0.12 and T <= 3:
+        # the same loss tensor listed twice (legal; the graph is traversed twice, hence retain_graph): two rows of the
+        # Jacobian are equal, and each listing brings its own parameter list
+        j = rng.randrange(T)
+        losses.append(losses[j])
+        extra = [p for p in M.task_leaves[j] if rng.random() < 0.6]
+        if tasks is not None:
+            tasks = tasks + [extra]
+            m_tasks = tasks
+        else:
+            m_tasks = m_tasks + [list(M.task_leaves[j])]
+        T += 1
+        retain = True
+        agg = ("const", rng.sample(range(-6, 9), T)) if agg[0] in ("const", "probe", "mean") else agg
+        chunk = rng.choice([None, 1, 2, T])
+    return dict(gen=gen, losses=losses, features=M.features, tasks=tasks, m_tasks=m_tasks, shared=shared,
                 m_shared=m_shared, agg=agg, chunk=chunk, retain=retain, pre=pre)
 
 
@@ -82,6 +98,7 @@ def one(ctx: Ctx, M, call, dtypes):
                               f"tasks={'None' if call['tasks'] is None else 'explicit'}")
         ctx.count("outcome", rerr or "ok")
         ctx.count("explicit_empty_shared", call["shared"] == [])
+        ctx.count("same_loss_listed_twice", len(set(call["losses"])) < len(call["losses"]))
         ctx.count("params_as_one_shot_iterables", call["gen"])
         ctx.count("param_shared_by_two_tasks",
                   len({p for tp in call["m_tasks"] for p in tp}) < sum(len(tp) for tp in call["m_tasks"]))
